@@ -25,6 +25,8 @@ def _h5_to_obj(node):
 
 
 def _num_equal(a, b):
+    if isinstance(a, (str, bytes)) != isinstance(b, (str, bytes)):
+        return False  # a number written as text does not read back as the number
     try:
         a = float(a)
         b = float(b)
